@@ -3,6 +3,7 @@ from __future__ import annotations
 
 import os
 import pathlib
+import random
 import re
 import shutil
 import subprocess
@@ -709,7 +710,7 @@ def _state_equal(a, b) -> bool:
     if isinstance(a, (list, tuple)) and isinstance(b, (list, tuple)):
         return len(a) == len(b) and all(_state_equal(x, y) for x, y in zip(a, b))
     if isinstance(a, torch.Tensor) and isinstance(b, torch.Tensor):
-        return a.shape == b.shape and torch.equal(a, b)
+        return a.shape == b.shape and a.dtype == b.dtype and bool(torch.all((a == b) | (a.isnan() & b.isnan())))
     return a == b
 
 
@@ -724,7 +725,7 @@ def _roundtrip_case(rng, opt_kind, sched_kind):
     def build(seed, dp=False):
         torch.manual_seed(seed)
         m = torch.nn.Sequential(torch.nn.Linear(3, 4), torch.nn.Linear(4, 2))
-        o = torch.optim.Adam(m.parameters(), lr=0.3) if opt_kind == "adam" else torch.optim.SGD(m.parameters(), lr=0.3, momentum=0.9)
+        o = torch.optim.Adam(m.parameters(), lr=0.03) if opt_kind == "adam" else torch.optim.SGD(m.parameters(), lr=0.03, momentum=0.9)
         sc = {"kind": sched_kind, "milestones": [2, 5], "gamma": 0.1, "wf": 0.001, "warmup_iters": 3, "method": "linear",
               "max_iters": 20}
         sm = torch.nn.Linear(2, 2)          # an additional model, as in `self.models` (sensitivity_model)
@@ -912,14 +913,15 @@ def oracle(ctx: Ctx, deep: bool = False):
     for i in range(ctx.budget(8, 60)):
         ok, sk = ["adam", "sgd"][i % 2], ["multistep", "cosine"][(i // 2) % 2]
         ctx.count(("roundtrip", ok, sk, i), True, bucket=f"oracle/roundtrip/{ok}/{sk}")
+        sub_seed = rng.randrange(2 ** 31)
         try:
-            bad = _roundtrip_case(rng, ok, sk)
+            bad = _roundtrip_case(random.Random(sub_seed), ok, sk)
         except Exception as e:  # noqa: BLE001
             bad = [f"raises {err_name(e)}: {e}"[:300]]
         if bad:
             yield Violation("roundtrip-" + ("load-raises" if bad[0].startswith("raises") else "state-differs"),
                             f"save then load('latest') does not restore: {bad}", {"op": "roundtrip", "opt": ok, "sched": sk,
-                                                                                 "seed": ctx.seed, "index": i})
+                                                                                 "rng_seed": sub_seed})
     # (c) interrupted histories vs the uninterrupted run, bit for bit (k = 1)
     hs = list(st["histories"])
     for i in range(ctx.budget(14, 150) + (60 if deep else 0)):
@@ -956,6 +958,5 @@ def replay(rep: dict) -> bool:
                 v = _crash_case(ctx, st, name, prev, new, False, max(rep["n"], 0), rep["m"], stale)["impl"]()
                 return v not in rep["allowed"]
     if rep.get("op") == "roundtrip":
-        import random
-        return bool(_roundtrip_case(random.Random(f"{rep['seed']}-{rep['index']}"), rep["opt"], rep["sched"]))
+        return bool(_roundtrip_case(random.Random(rep["rng_seed"]), rep["opt"], rep["sched"]))
     return True
